@@ -141,6 +141,7 @@ const (
 	WUFullEmpty
 	WUBadProto
 	WUStack
+	WStackEmpty
 	WStatusWrapf
 	// multi-cause
 	MJoin
@@ -379,6 +380,9 @@ func init() {
 		}})
 	def(WStack, KindInfo{Name: "errors.WithStack", Arity: Wrap, Groups: GLib | GStack,
 		build: func(n *Node, k, _ []error) error { return mkWithStack(k[0]) }})
+	// a stack annotation that captured nothing (depth beyond the call stack)
+	def(WStackEmpty, KindInfo{Name: "errors.WithStackDepth(1000)", Arity: Wrap, Groups: GLib | GStack, Weight: 1,
+		build: func(n *Node, k, _ []error) error { return errors.WithStackDepth(k[0], 1000) }})
 	def(WHint, KindInfo{Slots: "U", Name: "errors.WithHint", Arity: Wrap, Groups: GLib | GAnnot,
 		build: func(n *Node, k, _ []error) error { return errors.WithHint(k[0], n.S[0].V) }})
 	def(WHintf, KindInfo{Slots: "UU", Name: "errors.WithHintf", Arity: Wrap, Groups: GLib | GAnnot, Weight: 2,
